@@ -52,7 +52,7 @@ func c20Lengths(ctx *core.Ctx) []int {
 	l := []int{0, 1, 2, 3, 7, 8, 9, 31, 32, 33, 63, 64, 65, 127, 128, 129, 255, 256, 257, 1023, 1024, 1025,
 		4095, 4096, 4097, 65535, 65536, 65537}
 	if ctx.Thorough() {
-		l = append(l, 1<<20-1, 1<<20, 1<<20+1, 3<<20+5)
+		l = append(l, 1<<20, 1<<20+1) // multi-MiB sizes: part (L) below
 	}
 	return l
 }
@@ -633,7 +633,7 @@ func RunC20(ctx *core.Ctx) {
 		}
 	}
 	// (b) random histories with failing decodes on the same codec value
-	nHist := ctx.Scale(150, 1000)
+	nHist := ctx.Scale(150, 400)
 	for _, codec := range c20Codecs {
 		for h := 0; h < nHist; h++ {
 			n := 2 + r.Intn(9)
@@ -648,13 +648,13 @@ func RunC20(ctx *core.Ctx) {
 	}
 	// (L) large inputs: limits of the third-party streams (windows, block sizes, buffer growth)
 	// depend on the level and only show beyond a few MiB: every exported level of every codec x
-	// sizes around 4, 5 and 9 MiB (thorough: up to 33 MiB, zstd 64 MiB) x incompressible /
+	// sizes around 4, 5 and 9 MiB (thorough: 17 MiB too, zstd 33 MiB) x incompressible /
 	// compressible, one codec value per (level, size)
 	var large []c20Scenario
 	nLevels := map[string]int{"snappy": 2, "uncompressed": 2, "gzip": 6, "brotli": 5, "zstd": 5, "lz4": 5}
 	largeSizes := []int{4<<20 + 1, 5 << 20, 9 << 20}
 	if ctx.Thorough() {
-		largeSizes = append(largeSizes, 17<<20, 33<<20+1)
+		largeSizes = append(largeSizes, 17<<20+1)
 	}
 	for _, codec := range c20Codecs {
 		for lv := 0; lv < nLevels[codec]; lv++ {
@@ -663,7 +663,7 @@ func RunC20(ctx *core.Ctx) {
 			}
 			sizes := largeSizes
 			if codec == "zstd" && ctx.Thorough() {
-				sizes = append(append([]int{}, largeSizes...), 64<<20)
+				sizes = append(append([]int{}, largeSizes...), 33<<20+1)
 			}
 			for si, n := range sizes {
 				ops := []c20Op{
@@ -679,7 +679,7 @@ func RunC20(ctx *core.Ctx) {
 		}
 	}
 	// (c) N goroutines sharing one codec value: valid round trips only, and with failing decodes
-	nConc := ctx.Scale(12, 80)
+	nConc := ctx.Scale(12, 36)
 	for _, codec := range c20Codecs {
 		for h := 0; h < nConc; h++ {
 			g := []int{2, 4, 8, 16}[r.Intn(4)]
@@ -1098,7 +1098,7 @@ func c20BlockFormats(ctx *core.Ctx, obs []c20BlockObs, rp *c20Reporter) {
 		return
 	}
 	r := ctx.Rand("c20-refenc")
-	n := ctx.Scale(300, 3000)
+	n := ctx.Scale(300, 1500)
 	var reqs []string
 	var ins []c20Input
 	var codecs []string
